@@ -206,6 +206,103 @@ def coq_tests(codes, task_results, TestResult, fingerprint):
     return clist(tasks)
 
 
+COUNT_STEPS = []
+
+
+def check_rendering(ctx, case, res, kind, observed):
+    '''the counted summary as RENDERED: classification_counts, the table and the pie chart of the result must
+    show, per status, the number (and names) of the observed items -- and rendering is read-only.
+    observed: list of (status name, item name) counted directly from the inputs'''
+    import re
+    from valjean.gavroche.diagnostics import stats
+    from valjean.cosette.task import TaskStatus
+    from valjean.javert import representation as rp
+    from valjean.javert.verbosity import Verbosity
+    enum_names, ok_enum = (STATUSES, TaskStatus.DONE) if kind == 'tasks' else (OUTCOMES, stats.TestOutcome.SUCCESS)
+    order = [ok_enum.name] + [n for n in enum_names if n != ok_enum.name]
+    want = [(st, sum(1 for s, _ in observed if s == st)) for st in order]
+    want = [(st, n) for st, n in want if n]
+    total = len(observed)
+    keys0 = [(k.name, len(v)) for k, v in res.classify.items()]
+    pattern = ''.join('1' if any(s == st for s, _ in observed) else '0' for st in enum_names)
+    ctx.count(f'{kind}_null_pattern_{pattern}')
+    # classification_counts
+    try:
+        statuses, counts = stats.classification_counts(res.classify, ok_enum)
+        got = list(zip([s.name for s in statuses], counts))
+    except Exception as exc:  # noqa
+        got = type(exc).__name__
+    if got != want:
+        ctx.oracle_failure(f'classification_counts of the {kind} summary gives {got}, the observed items count '
+                           f'{want} :: {case}', case, key='rendered-counts')
+    else:
+        cls = clist([f'({cn(enum_names.index(k.name))}, {clist([cz(j) for j, _ in enumerate(v)])})'
+                     for k, v in res.classify.items()])
+        COUNT_STEPS.append((case, f'({cn(len(enum_names))}, {cn(enum_names.index(ok_enum.name))}, {cls}, '
+                                  + clist([f'({cn(enum_names.index(st))}, {cn(n)})' for st, n in got]) + ')'))
+    # the table: rows (status, count/total (percent)) located by content, and the listed names per status
+    for verb in ('DEFAULT', 'FULL_DETAILS'):
+        try:
+            templates = rp.Representation(rp.TableRepresenter(), Verbosity[verb])(res)
+        except Exception as exc:  # noqa
+            ctx.oracle_failure(f'the table of the {kind} summary raises {type(exc).__name__} :: {case}', case,
+                               key='rendered-table-raises-' + type(exc).__name__)
+            continue
+        tables = [t for t in templates if hasattr(t, 'columns')]
+        texts = [str(t.text) for t in templates if hasattr(t, 'text')]
+        rows = None
+        for table in tables:
+            cols = [[str(x) for x in col] for col in table.columns]
+            scol = [c for c in cols if c and all(x in enum_names for x in c[:-1]) and c[-1] not in enum_names]
+            ccol = [c for c in cols if c and all(re.match(r'\d+/\d+', x) for x in c)]
+            if len(scol) == 1 and len(ccol) == 1 and len(scol[0]) == len(ccol[0]):
+                rows = list(zip(scol[0], ccol[0]))
+        if rows is None:
+            ctx.count('table_layout_unreadable')
+        else:
+            shown = []
+            for st, cell in rows[:-1]:
+                m = re.match(r'(\d+)/(\d+)\D*([\d.]+|\?+)', cell)
+                shown.append((st, int(m.group(1)), int(m.group(2)), m.group(3)))
+            bad = [(st, n) for st, n, _, _ in shown] != want or any(den != total for _, _, den, _ in shown)
+            for _, n, den, pct in shown:
+                if den and '?' not in pct and abs(float(pct) - 100.0 * n / den) > 0.06:
+                    bad = True
+            mtot = re.match(r'(\d+)/(\d+)', rows[-1][1])
+            if (int(mtot.group(1)), int(mtot.group(2))) != (total, total):
+                bad = True
+            if bad:
+                ctx.oracle_failure(f'the {verb} table of the {kind} summary shows {rows}, the observed items count '
+                                   f'{want} of {total} :: {case}', case, key='rendered-table')
+        for text in texts:
+            for m in re.finditer(r'with status (\w+):(.*?)(?=List of|\Z)', text, re.S):
+                names = []
+                for line in m.group(2).split('\n'):
+                    line = line.strip()
+                    if line == '#.' or line.startswith('#. '):
+                        ref = re.match(r'#\. :ref:`(.*) <anchor_', line)
+                        names.append((ref.group(1) if ref else line[3:]).strip())
+                direct = sorted(str(n).strip() for s, n in observed if s == m.group(1))
+                if sorted(names) != direct:
+                    ctx.oracle_failure(f'the {kind} summary lists {sorted(names)} under {m.group(1)}, observed '
+                                       f'{direct} :: {case}', case, key='rendered-names')
+    # the pie chart
+    try:
+        plots = rp.Representation(rp.PlotRepresenter(), Verbosity.DEFAULT)(res)
+        curve = plots[0].subplots[0].curves[0]
+        pie = [(str(b), int(v)) for b, v in zip(curve.bins[0], curve.values)]
+    except Exception:  # noqa   (another layout of the plot template: not the property's business)
+        pie = None
+        ctx.count('plot_layout_unreadable')
+    if pie is not None and pie != want:
+        ctx.oracle_failure(f'the pie chart of the {kind} summary shows {pie}, the observed items count {want} '
+                           f':: {case}', case, key='rendered-pie')
+    if [(k.name, len(v)) for k, v in res.classify.items()] != keys0:
+        ctx.oracle_failure(f'rendering the {kind} summary changes its recorded classification: {keys0} -> '
+                           f'{[(k.name, len(v)) for k, v in res.classify.items()]} :: {case}', case,
+                           key='rendering-not-read-only')
+
+
 def run_impl(ctx, case, steps):
     from valjean.cosette.task import TaskStatus
     from valjean.gavroche.diagnostics import stats
@@ -252,6 +349,7 @@ def run_impl(ctx, case, steps):
         cls = clist([f'({cn(STATUSES.index(st.name))}, {clist([cz(codes.val(n)) for n in lst])})'
                      for st, lst in classify.items()])
         steps.append((case, 'tasks', f'(ZTasks {ts} {cls} {cb(verdict)})'))
+        check_rendering(ctx, case, res, 'tasks', [(tr['status'].name, tn) for tn, tr in task_results])
         nontrivial = nontrivial or len(classify) > 1
 
     # ---- test results by outcome
@@ -296,6 +394,7 @@ def run_impl(ctx, case, steps):
                                                           f'Some {cz(codes.val("fp:" + f))}') + ')'
                               for n, f in lst]) + ')' for oc, lst in classify.items()])
         steps.append((case, 'tests', f'(ZTests {ztests} {cls} {cb(verdict)})', (ztests, cls, cb(verdict))))
+        check_rendering(ctx, case, res, 'tests', [(o, n) for o, n, _ in observed])
         nontrivial = nontrivial or len(classify) > 1
 
     # ---- by labels
@@ -468,6 +567,40 @@ def run_exhaustive(ctx, shards):
             steps = []
             run_impl(ctx, case, steps)
             tsteps += [st for st in steps if st[1] == 'tasks']
+    # every pattern of null / non-null classes over the status enums (2^5 for tasks, 2^4 for test outcomes),
+    # with one to three items per non-null class, in two interleavings: the counted summary as rendered
+    npat = 0
+    for mask in range(32):
+        present = [st for k, st in enumerate(STATUSES) if mask >> k & 1]
+        for variant in range(2):
+            npat += 1
+            tasks = [[f'task.{st.lower()}{j}', st, None] for k, st in enumerate(present)
+                     for j in range(1 + (k + variant + mask) % 3)]
+            if variant:
+                tasks.reverse()
+            steps = []
+            run_impl(ctx, {'exhaustive': True, 'tasks': tasks, 'by_labels': []}, steps)
+            tsteps += [st for st in steps if st[1] == 'tasks']
+    for mask in range(16):
+        for variant in range(2):
+            npat += 1
+            tasks = []
+            for k, oc in enumerate(OUTCOMES):
+                if not mask >> k & 1:
+                    continue
+                for j in range(1 + (k + variant + mask) % 3):
+                    if oc == 'MISSING':
+                        tasks.append([f'm{j}', 'DONE', None])
+                    elif oc == 'NOT_A_TEST':
+                        tasks.append([f'j{j}', 'DONE', [['junk', 'str']]])
+                    else:
+                        tasks.append([f't{k}{j}', 'DONE', [['fake', oc == 'SUCCESS', f'r{k}{j}', None]]])
+            if variant:
+                tasks.reverse()
+            steps = []
+            run_impl(ctx, {'exhaustive': True, 'tasks': tasks, 'by_labels': []}, steps)
+            tsteps += [(st[0], 'tasks', st[2]) for st in steps if st[1] == 'tests']
+    ctx.count('exhaustive_null_patterns', npat)
     size = 160
     for k in range(0, len(groups), size):
         chunk = groups[k:k + size]
@@ -488,7 +621,8 @@ def run_exhaustive(ctx, shards):
         f'non-test item at every position of every collection with <= {junk_total} result: {ncoll} collections, '
         f'each with the test summary and ALL {len(selections)} label selections of length 1..'
         f'{2 if quick else 3} over {"a, b" if quick else "a, b, _result"}; all {nstat} sequences of <= 3 task '
-        f'statuses for the task summary; every evaluation checked by brute-force counting and by the model')
+        f'statuses for the task summary; all 2^5 / 2^4 patterns of null and non-null classes (two interleavings) for the '
+        f'rendered counts; every evaluation checked by brute-force counting and by the model')
     ctx.rule += '; EXHAUSTIVE: ' + ctx.extra['exhaustive_bound']
     return ncoll
 
@@ -591,10 +725,12 @@ def run_history(ctx, case, steps):
         cls = clist([f'({cn(STATUSES.index(st.name))}, {clist([cz(codes.val(str(nf.name))) for nf in lst])})'
                      for st, lst in res.classify.items()])
         steps.append((case, 'tasks', f'(ZTasks {ts} {cls} {cb(verdict)})', None))
+        check_rendering(ctx, case, res, 'tasks', [(status[name], name) for name in want_names])
 
 
 def run(ctx):
     common.import_repo()
+    COUNT_STEPS.clear()
     ctx.rule = ('random collections of 0-15 task results (repeated task names, every status, with/without a '
                 '"result" list of 0-4 items: real TestMetadata results, stub results with a dictated verdict, '
                 'non-TestResult items) with label dicts over 4 keys (missing labels, 1/1.0/True values, '
@@ -626,11 +762,21 @@ def run(ctx):
                        + '.\nEval vm_compute in bad_indices (map check_case cases).'))
     ctx.extra['history_summaries_compared'] = len(hsteps)
     run_exhaustive(ctx, shards)
+    for k in range(0, len(COUNT_STEPS), 400):
+        chunk = COUNT_STEPS[k:k + 400]
+        shards.append(('counts', chunk,
+                       'Definition cases : list (nat * nat * list (nat * list Z) * list (nat * nat)) :=\n '
+                       + clist([c[1] for c in chunk]).replace('; (', ';\n (')
+                       + '.\nEval vm_compute in bad_indices (map check_counts cases).'))
+    ctx.extra['rendered_counts_compared'] = len(COUNT_STEPS)
     outs = common.coq_eval(ctx.pid, IMPORTS, [sh[2] for sh in shards])
     for (tag, chunk, _), out in zip(shards, outs):
         for i in common.parse_nat_list(out):
             step = chunk[i]
-            if tag == 'rand':
+            if tag == 'counts':
+                ctx.mismatch(f'classification_counts: model and implementation differ on {step[1][:300]}',
+                             {'case': step[0], 'coq': step[1]})
+            elif tag == 'rand':
                 ctx.mismatch(f'{step[1]} statistics: model and implementation differ on {step[2][:400]}',
                              {'case': step[0], 'kind': step[1], 'coq': step[2]})
             else:
